@@ -1,11 +1,15 @@
 package props
 
 import (
+	"bytes"
 	"encoding/json"
 	"errors"
 	"fmt"
 	"io"
+	"log"
+	"log/slog"
 	"net/http"
+	"strconv"
 	"strings"
 
 	"github.com/issue9/mux/v9"
@@ -27,7 +31,7 @@ var (
 func panicValue(i int) any {
 	switch i {
 	case 0:
-		return "s"
+		return "s 100%d of %s%" // text with format verbs: it must come out as it went in
 	case 1:
 		return errVal
 	case 2:
@@ -162,6 +166,26 @@ func c16System(kind string) (srv http.Handler, routerRec, groupRec string, rl, g
 		router = NewRouter(RouterCfg{Name: "r1"}, with(mux.WithStatusRecovery(500))...)
 		populate(router)
 		return router, "status", "n/a", rl, gl, router
+	case "router-rec-then-nil":
+		// the last option wins: WithRecovery(nil) switches recovery off again
+		router = NewRouter(RouterCfg{Name: "r1"}, with(recOpt(rl), mux.WithRecovery(nil))...)
+		populate(router)
+		return router, "none", "n/a", rl, gl, router
+	case "router-log", "router-slog", "router-write":
+		// the built-in reporting options: status 500 and a report that starts with the panic value as printed by fmt
+		c16Report.Reset()
+		var o mux.Option
+		switch kind {
+		case "router-log":
+			o = mux.WithLogRecovery(500, log.New(&c16Report, "", 0))
+		case "router-slog":
+			o = mux.WithSLogRecovery(500, slog.New(slog.NewTextHandler(&c16Report, nil)))
+		default:
+			o = mux.WithWriteRecovery(500, &c16Report)
+		}
+		router = NewRouter(RouterCfg{Name: "r1"}, with(o)...)
+		populate(router)
+		return router, "report:" + kind, "n/a", rl, gl, router
 	}
 	var g *mux.Group[*hv.H]
 	host := mux.NewHosts(false, "a.com")
@@ -189,6 +213,12 @@ func c16System(kind string) (srv http.Handler, routerRec, groupRec string, rl, g
 		router = g.New("r1", host, with(mux.WithURLDomain("https://h"))...)
 		rl = gl
 		routerRec, groupRec = "func", "func"
+	case "group-rec-new-nil":
+		// Group.New with WithRecovery(nil): this router has no recovery although the group has
+		g = newGroup(with(recOpt(gl))...)
+		g.Use(hv.MW{Name: "G"})
+		router = g.New("r1", host, mux.WithRecovery(nil))
+		routerRec, groupRec = "none", "func"
 	case "group-rec-new-overrides":
 		g = newGroup(with(recOpt(gl))...)
 		g.Use(hv.MW{Name: "G"})
@@ -217,10 +247,13 @@ func c16System(kind string) (srv http.Handler, routerRec, groupRec string, rl, g
 	return g, routerRec, groupRec, rl, gl, router
 }
 
+// c16Report receives what the built-in reporting recovery options write.
+var c16Report bytes.Buffer
+
 // c16InterceptorPanic, when non-nil, makes the "boom" interceptor panic with that value.
 var c16InterceptorPanic any
 
-var c16Kinds = []string{"router-rec+lock", "group-rec-inherited+lock", "router-none+lock", "group-rec-new-extra-option", "router-none", "router-rec", "router-status", "group-none", "group-rec-inherited", "group-status-inherited", "group-rec-new-overrides", "group-rec-added-own", "group-none-added-rec", "group-rec-added-none"}
+var c16Kinds = []string{"router-rec-then-nil", "group-rec-new-nil", "router-log", "router-slog", "router-write", "router-rec+lock", "group-rec-inherited+lock", "router-none+lock", "group-rec-new-extra-option", "router-none", "router-rec", "router-status", "group-none", "group-rec-inherited", "group-status-inherited", "group-rec-new-overrides", "group-rec-added-own", "group-none-added-rec", "group-rec-added-none"}
 
 func c16Job(raw json.RawMessage) (any, error) {
 	var it c16Item
@@ -265,6 +298,7 @@ func c16Job(raw json.RawMessage) (any, error) {
 				c16InterceptorPanic = val
 			}
 			lockBase := heldLocks() // process-wide counter: compare with its value before the request
+			c16Report.Reset()
 			o := hv.Serve(srv, q)
 			c16InterceptorPanic = nil
 			out.Evals++
@@ -329,6 +363,20 @@ func c16Job(raw json.RawMessage) (any, error) {
 						rep("wrong-level-recovery-called", probe, "the other level's recovery function ran too", "only the function in force at the level that served the request")
 					}
 				}
+			case "report:router-log", "report:router-slog", "report:router-write":
+				if o.Paniced {
+					rep("escaped", probe, fmt.Sprintf("panic escaped ServeHTTP: %v", o.Panic), "contained; status 500 and a report")
+					continue
+				}
+				text := c16Report.String()
+				want := fmt.Sprint(val)
+				ok := strings.HasPrefix(text, want+"\n")
+				if rec == "report:router-slog" { // the report is the msg attribute of one slog record, quoted
+					ok = strings.Contains(text, "level=ERROR") && strings.Contains(text, strings.Trim(strconv.Quote(want+"\n"), `"`)[:len(strings.Trim(strconv.Quote(want), `"`))])
+				}
+				if !ok {
+					rep("report-garbled:"+strings.TrimPrefix(rec, "report:"), probe, fmt.Sprintf("report starts %q", firstN(text, 80)), fmt.Sprintf("the panic value as fmt prints it: %q, then the stack", want))
+				}
 			case "status":
 				if o.Paniced {
 					rep("escaped", probe, fmt.Sprintf("panic escaped ServeHTTP: %v", o.Panic), "contained; status 500")
@@ -360,6 +408,13 @@ func c16Job(raw json.RawMessage) (any, error) {
 	return out, nil
 }
 
+func firstN(s string, n int) string {
+	if len(s) > n {
+		return s[:n]
+	}
+	return s
+}
+
 func init() {
 	explore.RegisterJob("c16/seq", c16Job)
 	explore.Register(&explore.Check{ID: "C16", Run: func(rc *explore.RunCtx) {
@@ -368,6 +423,7 @@ func init() {
 			return
 		}
 		rc.Assume = append(rc.Assume,
+			"also: WithRecovery(f) followed by WithRecovery(nil) (the last option wins: no recovery), Group.New(..., WithRecovery(nil)) below a group with recovery, and the built-in reporting options WithLogRecovery / WithSLogRecovery / WithWriteRecovery (contained, and the report starts with the panic value exactly as fmt prints it - one string value contains format verbs)",
 			"instances: Router and Group with no recovery / WithRecovery(f) / WithStatusRecovery(500); routers made by Group.New inheriting and overriding the option; routers Added with and without their own option - 10 kinds, one long-lived instance per sequence",
 			"events: 3 normal requests (one of them issues a second request from inside its handler, so two requests are alive at once) and 18 panic sites (handlers for GET/POST/HEAD/params, each middleware layer before and after next, 404, 405, OPTIONS, TRACE, OPTIONS *, group not-found, group Use middleware) x panic values {string, error, int, runtime.Error, struct, pointer, typed nil, http.ErrAbortHandler, io.EOF}",
 			"all sequences of length <= 2 with all values (quick) and length 3 with two values; thorough: length 3 with all values and length 4 with two",
